@@ -124,6 +124,7 @@ func (s *server) query(req *proto.QueryRequest) (string, bool) {
 type BatchQ struct {
 	ID int32 `json:"id"`
 	Q  QCase `json:"q"`
+	W  *WT   `json:"w,omitempty"` // if set: a wire-level tree (possibly incomplete) instead of Q
 }
 
 type SrvCase struct {
@@ -165,12 +166,18 @@ func runSrvCase(o *Oracle, c *SrvCase, rep *Report) {
 		failed := false
 		for i := range batch {
 			b := &batch[i]
-			req.Queries = append(req.Queries, qcaseToProto(&b.Q, b.ID))
 			id := b.ID
 			if id == 0 {
 				id = int32(i + 1)
 			}
-			w := o.Ask("idx q " + b.Q.Toks())
+			var w string
+			if b.W != nil {
+				req.Queries = append(req.Queries, &proto.Query{Id: b.ID, Expr: b.W.Proto()})
+				w = o.Ask("srv q " + b.W.Show())
+			} else {
+				req.Queries = append(req.Queries, qcaseToProto(&b.Q, b.ID))
+				w = o.Ask("idx q " + b.Q.Toks())
+			}
 			if w == "err" {
 				failed = true
 			}
@@ -230,7 +237,12 @@ func runC13(rep *Report, r *Rng, tier string) {
 			var batch []BatchQ
 			for k, nq := 0, r.Intn(9); k < nq; k++ {
 				q := QCase{E: genExpr(r, pool, 1+r.Intn(3), r.Chance(1, 4)), GB: genGroupBy(r, pool, false)}
-				batch = append(batch, BatchQ{ID: int32(Pick(r, []int{0, 0, 1, 2, 5, 5, 77, -3})), Q: q})
+				bq := BatchQ{ID: int32(Pick(r, []int{0, 0, 1, 2, 5, 5, 77, -3})), Q: q}
+				if r.Chance(1, 12) { // a structurally invalid member: one omission somewhere in a valid tree
+					om := omissions(exToWT(q.E))
+					bq.W = Pick(r, om)
+				}
+				batch = append(batch, bq)
 			}
 			c.Batches = append(c.Batches, batch)
 		}
